@@ -152,3 +152,13 @@ func multiplyFixnums(x, y slip.Fixnum) slip.Object {
 	var z big.Int
 	return (*slip.Bignum)(z.Mul(big.NewInt(int64(x)), big.NewInt(int64(y))))
 }
+
+// divideFixnums returns the quotient, truncated toward zero, and the
+// remainder of two fixnums. Dividing by -1 is a negation so that the quotient
+// of the most negative fixnum and -1 is a bignum and not an overflow.
+func divideFixnums(x, y slip.Fixnum) (q, r slip.Object) {
+	if y == -1 {
+		return subtractFixnums(0, x), slip.Fixnum(0)
+	}
+	return x / y, x % y
+}
